@@ -20,7 +20,9 @@ JOE_RULE = (
     "seeded scenarios run against the real sse.Joe built with -tags verif in child processes (a crash is an observation): 1-4 (thorough: 8) "
     "subscribers, 1-3 publisher threads, 1-3 shutdown callers; topic sets disjoint/equal/overlapping in one or many topics/DefaultTopic; "
     "writer scripts failing at the k-th Send or Flush, with and without cancelling the own context inside the failing call; cancellation "
-    "before start / after registration / after m events; replayer Put/Replay verdict scripts (ok, error, panic); Shutdown racing pending "
+    "before start / after registration / after m events; replayer Put/Replay verdict scripts (ok, error, panic) and strictly sequential fault "
+    "histories (every ordered pair of Replay error / Replay panic / Put error / Put panic, then new subscribers and publishes); messages "
+    "without data - &sse.Message{} or an ID only - in every class (recognised by pointer), also through ID-assigning real replayers; Shutdown racing pending "
     "publishes, fan-outs, subscriptions, other Shutdown calls, with and without cancelled context; schedule perturbation at the hook points "
     "(Gosched, microsecond sleeps, priorities, parked goroutines with time-outs) at GOMAXPROCS 1/2/4/16. Every trace is replayed through "
     "the extracted JoeLts.step (K = the observed trace is not a path of the model) and through the property's monitor (S). "
@@ -124,7 +126,10 @@ PROPS["C04"] = {
     "rule": ("seeded scenarios against the real sse.Joe with real FiniteReplayer (capacity 2..5) and ValidReplayer, automatic and manual IDs: number of prior "
              "publishes 0, < capacity, = capacity, multiples, > capacity; presented ID oldest buffered / middle / newest / evicted / never issued (text, "
              "numeral above the newest, 2^63, 2^64-1, non-canonical) / unset; publishers parked so that publishes are accepted before, during and after "
-             "the resuming Subscribe; schedule perturbation as for C03. K = trace not a path of the model, S = monitor (replay part vs spec_resume of the "
+             "the resuming Subscribe; a ValidReplayer with a scripted clock (m stored events expire, k survive, m and k up to 8: exactly len/2, len/4 "
+             "and other numbers of survivors in rings of 8 and 16 slots), collected by the next Put or by the application's own GC() call, resumed from "
+             "the newest / oldest surviving / an expired ID before anything else is stored; messages without data; schedule perturbation as for C03. "
+             "K = trace not a path of the model, S = monitor (replay part vs spec_resume of the "
              "observed Put history, live part, same ID)"),
     "assumptions": ["the presented ID identifies at most one buffered event (IDs unique)",
                     "automatic IDs below the oldest buffered one replay the whole buffer (documented behaviour, C08)"],
